@@ -410,7 +410,17 @@ class DFlags(Plugin):
                     return pl[:3] + (True,) + pl[4:]
                 return (True, False, False, False) + pl[4:7] + (True, False, None, None)
             return pl
+        if k == "handler":
+            f_ = ev[6]
+            while f_ is not None and f_.depth > 0:
+                if f_.fn.name in ("_strnlen_s_chk", "_wcsnlen_s_chk"):
+                    # the measuring call itself failed (it reports and returns 0): its result is not the length of the string in dest
+                    pl = pl[:6] + (("failed-measure",),) + pl[7:]
+                    break
+                f_ = f_.parent
         if k == "leave" and ev[1].name in ("_strnlen_s_chk", "_wcsnlen_s_chk") and ev[2] is not None:
+            if pl[6] == ("failed-measure",):
+                return pl[:6] + (None,) + pl[7:]
             i, fr = ev[3], ev[4]
             a0 = eng.val(fr, i["args"][0], env)
             if s.is_dest(a0) and a0[2].is_const() and a0[2].c == 0 and ev[2][0] == "i":
